@@ -263,6 +263,12 @@ func Main(t *testing.T) {
 	detEvery := envInt("VERIF_DET_EVERY", 40)
 	collect := os.Getenv("VERIF_COLLECT") != ""
 	seenSig := map[string]bool{}
+	// determinism self-test: one line "run-index world event-log-hash steps" per run
+	var hashLog *os.File
+	if hp := os.Getenv("VERIF_HASHLOG"); hp != "" {
+		hashLog, _ = os.Create(hp)
+		defer hashLog.Close()
+	}
 
 	cl := claims[prop]
 	if len(cl) == 0 {
@@ -326,7 +332,17 @@ func Main(t *testing.T) {
 		ch := NewChoice(splitmix(runSeed ^ 0x5ca1ab1e))
 		detCheck := detEvery > 0 && (i/nworkers)%detEvery == 0
 		cfg.Debug = detCheck
+		dumpDir := os.Getenv("VERIF_DUMPLOG")
+		if dumpDir != "" {
+			cfg.Debug = true
+		}
 		res := execRun(t, w, script, cfg, ch, prop)
+		if dumpDir != "" {
+			_ = os.WriteFile(filepath.Join(dumpDir, fmt.Sprintf("%d-%d-%x.log", os.Getpid(), i, res.Hash)), []byte(strings.Join(res.DebugLog, "\n")+"\n"), 0o644)
+		}
+		if hashLog != nil {
+			fmt.Fprintf(hashLog, "%d %s %x %d\n", i, w.Name, res.Hash, res.Steps)
+		}
 		out.Runs++
 		out.RunsByWorld[w.Name]++
 		out.Steps += int64(res.Steps)
